@@ -17,8 +17,8 @@ META = dict(
                "L2, vectors (FULL): C05_vec_history — for EVERY history of push / replace / remove / swap / resize / reserve / shrink_to_fit / value / iteration / len on a storage-backed vector, interleaved at will "
                "with reloads (the handle dropped and rebuilt by DbVec::from_storage, incl. its length check) and with optimize / drop+open / backup+open of the storage underneath, the observations are those of "
                "the plain list (reload and maintenance do nothing), the representation invariant holds (record = le64 len ++ slots ++ UNCONSTRAINED spare bytes, slot i represents element i, len <= capacity) "
-               "and the history touches exactly its footprint (frame: no other record changes, none is leaked); generic in the element class (elem_law), proved for u64, i64, raw inline bytes, MapValueState and "
-               "String (out-of-line records owned by the slots); C05_vec_reload; C05_vec_remove_from_storage; C05_vec_history_on_storage_{u64,i64,string} + C05_cwp_sound: the same statements hold of runs on the "
+               "and the history touches exactly its footprint (frame: no other record changes, none is leaked); generic in the element class (elem_law), proved for u64, i64, raw inline bytes, MapValueState, "
+               "String (out-of-line records owned by the slots), DbValue (the 16-byte value index of C12: inline up to 15 bytes, else one owned record; from C12's theorems) and DbKeyValue (a pair of them); C05_vec_reload; C05_vec_remove_from_storage; C05_vec_history_on_storage_{u64,i64,string,dbvalue,dbkv} + C05_cwp_sound: the same statements hold of runs on the "
                "MODEL OF storage.rs (file-like and memory-like) from a fresh storage — nothing is assumed of the storage that C04 did not prove; non-vacuity examples by evaluation. "
                "L2, map data (FULL for the MapData interface): C05_map_history — EVERY history of set_state / set_key / set_value / set_len / resize / swap / shrink_to_fit / state / key / value / capacity / len of a "
                "storage-backed map (DbMapData: the index record + the three vectors, pairwise disjoint), with reloads (DbMapData::from_storage) and maintenance at will, yields the observations of the plain table; "
@@ -29,9 +29,10 @@ META = dict(
                "L2, root record: C05_root_roundtrip_partial — DbStorageIndex stored at index 1 is what the next open reads (PARTIAL: the components are not assembled into one invariant of the whole database file). "
                "Also pinned: C02_{vec,map,graph}_loads_partial (the loaders succeed and read back the content in every state satisfying the invariants, i.e. at every transaction boundary) and "
                "C06_{vec,map,graph}_variants_agree (file-like and memory-like storage give the same observations for every collection history). "
-               "NOT proved: the composition L2 -> L3 (that DbImpl's query results are a function of these collections' contents only; indexes = vector of multi-maps, key-value store = vector of vectors), and the "
+               "NOT proved: the composition L2 -> L3 (that DbImpl's query results are a function of these collections' contents only; DbIndexes = a vector of (value index, multi-map) pairs, DbKeyValues = a vector of "
+               "indexes of DbVec<DbKeyValue> — each component class is covered, the nesting is not assembled), the algorithms of multi_map.rs / graph.rs over the interfaces (C19 / C08 models), and the "
                "u64-overflow behaviour of vec.rs' own arithmetic (modelled in N; bounded by the record size which the storage keeps below 2^64). "
-               "Checked on every run: (a) collection correspondence — generated histories (vectors of u64 / i64 / String, DbMapData<u64,u64> and <String,u64>, GraphDataStorage; reload / optimize / reopen / backup+open "
+               "Checked on every run: (a) collection correspondence — generated histories (vectors of u64 / i64 / String / DbValue / DbKeyValue, DbMapData<u64,u64> and <String,u64>, GraphDataStorage; reload / optimize / reopen / backup+open "
                "at random points) on MemoryStorage, FileStorage and FileStorageMemoryMapped through hook H4; after EVERY step the observation, the handle (index, len, capacity) and EVERY live record of the storage with "
                "its raw bytes are compared EXACTLY with the extracted model (spare-capacity bytes and indexes of out-of-line records included); independently a shadow list / table / multimap in the harness is the direct "
                "oracle on the implementation (reads agree; content read through a reloaded handle equals the content before), also for the whole MultiMapStorage<u64,u64>; skipped with a note when hook H4 "
@@ -110,7 +111,7 @@ def run(ctx):
         nontrivial += co["nontrivial"]
         samples = co["samples"][:3] + samples[:3]
         dist.update({"coll:" + k: v for k, v in co["dist"].items()})
-        rule = ("collection layer: %d histories (the same generated history on MemoryStorage, FileStorage, FileStorageMemoryMapped; kinds: DbVec<u64>, DbVec<i64>, DbVec<String>, DbMapData<u64,u64>, "
+        rule = ("collection layer: %d histories (the same generated history on MemoryStorage, FileStorage, FileStorageMemoryMapped; kinds: DbVec<u64>, DbVec<i64>, DbVec<String>, DbVec<DbValue>, DbVec<DbKeyValue>, DbMapData<u64,u64>, "
                 "DbMapData<String,u64>, GraphDataStorage, MultiMapStorage<u64,u64>), %d steps; 14%% of the steps are a reload (handle rebuilt by from_storage) or a maintenance operation of the storage "
                 "(optimize, drop+open, backup+open); after EVERY step observation + handle + every live record's bytes equal the extracted model's line (%d lines compared; MultiMapStorage: shadow "
                 "oracle only); non-trivial = history with a reload, a maintenance operation and growth/removal. Database level: " % (co["histories"], co["steps"], co["lines"])) + rule
